@@ -351,6 +351,30 @@ class Sandboxes:
                 return ('fail' if (more or trailing) else 'ok'), nxt
         return 'ok', cur
 
+    def walk_dirs(self, path):
+        """The directories the kernel passes through while walking `path` (every intermediate `cur`)."""
+        import stat as _st
+        out = set()
+        cur = '/' if path.startswith('/') else self.cwd
+        out.add(cur)
+        for c in path.split('/'):
+            if c in ('', '.'):
+                continue
+            if c == '..':
+                cur = os.path.dirname(cur)
+                out.add(cur)
+                continue
+            nxt = cur.rstrip('/') + '/' + c
+            try:
+                st = _real['lstat'](nxt)
+            except (OSError, ValueError):
+                break
+            if not _st.S_ISDIR(st.st_mode):
+                break
+            cur = nxt
+            out.add(cur)
+        return out
+
     def where(self, path):
         """The file-system object the kernel reaches when given `path`: the existing file/directory it
         names, or (last component missing) the place where it would be created.  None = nothing is
@@ -362,6 +386,7 @@ class Sandboxes:
     def judge(self, root, log, changed):
         """Property predicate on one case.  `root` = absolute real path of the configured root."""
         bad = []
+        passed = None
         for op, path, internal, res in log:
             loc = self.where(path)
             if loc is None:
@@ -370,10 +395,18 @@ class Sandboxes:
                 continue
             if not (loc == self.top or loc.startswith(self.top + '/')) and system_ok(loc):
                 continue
-            if internal and op in READ_OPS and root.startswith(loc.rstrip('/') + '/'):
-                # filelock canonicalises the lock path with realpath(): lstat of every ancestor directory
-                # on the way down to the root, exactly what the kernel's own path walk does
-                continue
+            if internal and op in READ_OPS:
+                # filelock canonicalises the lock path with realpath(): one lstat per directory the walk of
+                # that path passes through (ancestors of the root, and - for ids like
+                # "/../../other/../sess/session-x" - a directory outside that the walk leaves again), exactly
+                # what the kernel's own walk of the same path does.  Passing through is not touching.
+                if passed is None:
+                    passed = set()
+                    for op2, path2, internal2, _r in log:
+                        if not internal2:
+                            passed |= self.walk_dirs(path2)
+                if loc in passed:
+                    continue
             kind = 'read' if op in READ_OPS else 'write'
             bad.append(('%s(%r) reaches %s, outside the root %s'
                         % (op, path.replace(self.top, '{TOP}'), loc.replace(self.top, '{TOP}'),
@@ -705,9 +738,19 @@ class Sandboxes:
         changed = self.restore()
         obs = {'acc': self.canon_acc(log), 'refused': outcome == '400', 'outcome': outcome,
                'cwd': self.cwd, 'storage': d}
-        obs['oracle'] = self.judge(root, log, changed)
         obs['hist'] = ['sess_unit:op=%s' % op, 'sess_unit:outcome=%s' % outcome,
                        'sess_unit:tmpl=%s' % case.get('tmpl')]
+        # The statement quantifies over cookie values.  A client-supplied id gets past Session.__init__ only
+        # if `_exists()` found its file, so load/save/delete/lock never see an id whose file name does not
+        # even resolve (a missing or non-directory component in the middle).  For such ids only the path the
+        # code itself chose is judged; what filelock does with an unresolvable name (its `mkdir -p` of the
+        # lexical parents) is outside the statement's domain - recorded in docs/C11.md as an observation.
+        fname = os.path.join(os.path.abspath(d), 'session-' + sess._id)
+        if op != 'exists' and self.walk(fname)[0] in ('fail', 'nul'):
+            obs['hist'].append('sess_unit:id-unreachable-from-a-cookie')
+            log = [e for e in log if not e[2]]
+            changed = []
+        obs['oracle'] = self.judge(root, log, changed)
         return obs
 
     def run_cleanup(self, case):
@@ -732,14 +775,24 @@ class Sandboxes:
             else:
                 p = root + '/' + name
                 listing.append([name, 'u' if os.path.isdir(p) else 'f'])
+        outcome = 'ok'
         with TAP:
-            sess.clean_up()
+            try:
+                sess.clean_up()
+            except Exception as e:      # the code under test may raise: an outcome, not a harness error
+                outcome = 'exc:' + type(e).__name__
+                lk = getattr(sess, 'lock', None)
+                if lk is not None:
+                    try:
+                        lk.release()
+                    except Exception:
+                        pass
         log = TAP.log
         changed = self.restore()
         # files clean_up removed/created inside the root are expected; only outside changes count
         obs = {'acc': self.canon_acc(log), 'listing': listing, 'cwd': self.cwd, 'storage': d}
         obs['oracle'] = self.judge(root, log, changed)
-        obs['hist'] = ['cleanup:files=%d' % len(listing)]
+        obs['hist'] = ['cleanup:files=%d' % len(listing), 'cleanup:outcome=%s' % outcome]
         return obs
 
     def run_alg(self, case):
